@@ -31,7 +31,7 @@ func fidCase[T any](r *SeqReport, seen map[string]bool, label string, payload T,
 	gotID, ran, ok := "", 0, false
 	var ad *Adapter
 	x := vrt.Run(nil, nil, nil, func() {
-		ad = h.NewAdapter(via == "persprio")
+		ad = h.NewAdapter(via == "persprio" || via == "distprio")
 		w := varmq.NewWorker(func(j varmq.Job[T]) { got, gotID = j.Data(), j.ID(); ran++ })
 		var cfg []varmq.JobConfigFunc
 		cfg = append(cfg, varmq.WithJobId(id))
@@ -43,6 +43,9 @@ func fidCase[T any](r *SeqReport, seen map[string]bool, label string, payload T,
 		case "dist":
 			w.WithDistributedQueue(ad)
 			ok = varmq.NewDistributedQueue[T](ad).Add(payload, cfg...) // another process's producer
+		case "distprio":
+			w.WithDistributedPriorityQueue(prioAdapter{ad})
+			ok = varmq.NewDistributedPriorityQueue[T](prioAdapter{ad}).Add(payload, 3, cfg...)
 		}
 		vrt.Quiesce()
 	})
@@ -162,12 +165,102 @@ func badCase(r *SeqReport, seen map[string]bool, n int, pos []int, bad any, badN
 		r.Samples = append(r.Samples, cs)
 	}
 }
+// fidSeq: several payloads submitted back to back, so that their stored entries are pending together (the consumer runs
+// only at the quiescence after the last submission; the adapter keeps the byte slices it is handed, as an in-memory
+// store may). Each must arrive once, in order, with its own ID and payload. ids[i] == "" submits without WithJobId:
+// the consuming worker's ID generator names the job on the persistent paths, a producer of its own (distributed
+// paths) has none.
+func fidSeq[T any](r *SeqReport, seen map[string]bool, label string, payloads []T, ids []string, via string) {
+	h := NewH()
+	h.NoMon = true
+	var got []T
+	var gotID []string
+	oks := 0
+	gen := 0
+	x := vrt.Run(nil, nil, nil, func() {
+		ad := h.NewAdapter(via == "persprio" || via == "distprio")
+		w := varmq.NewWorker(func(j varmq.Job[T]) { got, gotID = append(got, j.Data()), append(gotID, j.ID()) },
+			varmq.WithJobIdGenerator(func() string { gen++; return fmt.Sprintf("gen-%d", gen) }))
+		var addP func(T, ...varmq.JobConfigFunc) bool
+		switch via {
+		case "pers":
+			addP = w.WithPersistentQueue(ad).Add
+		case "persprio":
+			q := w.WithPersistentPriorityQueue(prioAdapter{ad})
+			addP = func(v T, c ...varmq.JobConfigFunc) bool { return q.Add(v, 3, c...) }
+		case "dist":
+			w.WithDistributedQueue(ad)
+			addP = varmq.NewDistributedQueue[T](ad).Add
+		case "distprio":
+			w.WithDistributedPriorityQueue(prioAdapter{ad})
+			q := varmq.NewDistributedPriorityQueue[T](prioAdapter{ad})
+			addP = func(v T, c ...varmq.JobConfigFunc) bool { return q.Add(v, 3, c...) }
+		}
+		for i, v := range payloads {
+			var cfg []varmq.JobConfigFunc
+			if ids[i] != "" {
+				cfg = append(cfg, varmq.WithJobId(ids[i]))
+			}
+			if addP(v, cfg...) {
+				oks++
+			}
+		}
+		vrt.Quiesce()
+	})
+	r.Traces++
+	r.Transitions += int64(len(x.Points))
+	cs := fmt.Sprintf("%s x%d ids=%q via %s", label, len(payloads), ids, via)
+	add := func(clause, detail string) {
+		k := clause + detail
+		if !seen[k] && len(r.V) < 40 {
+			seen[k] = true
+			r.V = append(r.V, SeqViolation{"C12", clause, detail, cs})
+			if clause == "C12.id" || clause == "C12.generator" {
+				r.V = append(r.V, SeqViolation{"C07", "C07.identity", detail, cs})
+			}
+		}
+	}
+	if x.Crash != "" {
+		add("C12.crash", firstLine(x.Crash)+" @ "+x.CrashFrame)
+		return
+	}
+	if oks != len(payloads) || len(got) != len(payloads) {
+		add("C12.lost", fmt.Sprintf("of %d JSON-representable payloads pending together %d were accepted and %d delivered", len(payloads), oks, len(got)))
+		return
+	}
+	for i, v := range payloads {
+		b, _ := json.Marshal(v)
+		var want T
+		json.Unmarshal(b, &want)
+		if !reflect.DeepEqual(got[i], want) {
+			add("C12.payload", "with several entries pending together the consumer saw a payload different from the JSON round-trip of the submitted value ("+typeName(v)+")")
+		}
+		wantID := ids[i]
+		if wantID == "" && (via == "pers" || via == "persprio") {
+			// (the generator may be consulted more often than once per ID-less job: any value of its own, used once, will do)
+			okGen := strings.HasPrefix(gotID[i], "gen-") && len(gotID[i]) > 4
+			for k := range gotID {
+				if k != i && gotID[k] == gotID[i] {
+					okGen = false
+				}
+			}
+			if !okGen {
+				add("C12.generator", "a job submitted without an ID through a persistent queue did not get an ID of its own from the worker's generator")
+			}
+			continue
+		}
+		if gotID[i] != wantID {
+			add("C12.id", "with several entries pending together the consumer saw a different job ID than the one submitted")
+		}
+	}
+}
+
 
 func init() {
 	run := func(r *SeqReport, deep bool) {
 		seen := map[string]bool{}
 		ids := []string{"", "a", "job-ü-✓", "q\"uo\\te", "line\u2028sep\nnl\ttab", strings.Repeat("x", 300), "ctl\x00\x01\a\v\x1b\x7f", "\U000e0001<&>"}
-		vias := []string{"pers", "persprio", "dist"}
+		vias := []string{"pers", "persprio", "dist", "distprio"}
 		for _, via := range vias {
 			for _, id := range ids {
 				for _, s := range []string{"", "plain", "esc\"\\/\b\f\n\r\t", "ünï©ode ✓ 日本", "  <>&", "\x00\x01"} {
@@ -213,6 +306,28 @@ func init() {
 				}
 			}
 		}
+		// pairs and triples pending together: every ordered pair of the string and integer alphabets, structs, mixed IDs
+		allVias := []string{"pers", "persprio", "dist", "distprio"}
+		strs := []string{"", "plain", "plaim", "esc\"\\/\b\f\n\r\t", "ünï©ode ✓ 日本", "a much longer payload than the others, to make the buffer grow"}
+		ints := []int64{0, 1, -1, 22, math.MaxInt64, math.MinInt64}
+		for _, via := range allVias {
+			for _, idp := range [][]string{{"a", "b", "c"}, {"", "", ""}, {"x", "", "a-longer-id"}} {
+				for _, a := range strs {
+					for _, b := range strs {
+						fidSeq(r, seen, "string", []string{a, b}, idp[:2], via)
+					}
+				}
+				for _, a := range ints {
+					for _, b := range ints {
+						fidSeq(r, seen, "int64", []int64{a, b}, idp[:2], via)
+					}
+				}
+				fidSeq(r, seen, "struct", []fidStruct{{A: 1, B: "one", C: []float64{1}}, {A: 2}, {A: 3, B: "three", D: map[string]any{"k": "v"}}}, idp, via)
+				fidSeq(r, seen, "*struct", []*fidStruct{{A: 1, E: &fidStruct{A: 11}}, nil, {A: 3}}, idp, via)
+				fidSeq[any](r, seen, "any", []any{map[string]any{"a": 1}, nil, []any{1, 2}}, idp, via)
+				fidSeq(r, seen, "map", []map[string]int{{"a": 1, "b": 2}, {}, {"c": 3}}, idp, via)
+			}
+		}
 		bads := []struct {
 			name string
 			v    any
@@ -235,11 +350,11 @@ func init() {
 		r.States, r.Distinct, r.MaxDepth = r.Traces, r.Traces, 4
 		r.Exhaustive = true
 	}
-	Register(&Scenario{Name: "seq-fidelity/quick", Props: []string{"C12"}, Seq: true, Only: "quick", SeqRun: func(r *SeqReport) {
+	Register(&Scenario{Name: "seq-fidelity/quick", Props: []string{"C12", "C07"}, Seq: true, Only: "quick", SeqRun: func(r *SeqReport) {
 		run(r, false)
-		r.Notes = append(r.Notes, "payload shapes x value alphabet x 6 IDs x {persistent, persistent-priority, distributed}; 8 kinds of bad entries at every position among <= 3 valid ones")
+		r.Notes = append(r.Notes, "payload shapes x value alphabet x 8 IDs x {persistent, persistent-priority, distributed, distributed-priority}; every ordered pair of strings / integers and triples of structured values pending together, with explicit, generated and absent IDs; 8 kinds of bad entries at every position among <= 3 valid ones")
 	}})
-	Register(&Scenario{Name: "seq-fidelity/thorough", Props: []string{"C12"}, Seq: true, Only: "thorough", SeqRun: func(r *SeqReport) {
+	Register(&Scenario{Name: "seq-fidelity/thorough", Props: []string{"C12", "C07"}, Seq: true, Only: "thorough", SeqRun: func(r *SeqReport) {
 		run(r, true)
 		r.Notes = append(r.Notes, "as quick, plus nesting depth 4")
 	}})
